@@ -85,9 +85,11 @@ class C14(Property):
         'the code as of the model (charge_bound_needed_witness: H+2000 has mass -0.0898; positive_counts_needed_witness: [Fe]0 has mass 0) - '
         'physically meaningless inputs, recorded as a limitation of the property text, not generated as mixtures; the optional `substances` '
         'registry and set input are oracle/correspondence only',
-        'Species.from_formula with non-default `phases`, Solute.from_formula: correspondence + oracle only (species_mass_spec covers the default phases)',
+        'Species.from_formula with `phases` given as a DICT (species_mass_spec covers every plain list of phases within the suffix vocabulary of '
+        'the C01 parser model, solute_mass_spec covers Solute.from_formula): correspondence + oracle only',
         'additivity "over groups" inside arbitrary contexts is contained in formula_mass_spec (product of enclosing multipliers); the explicit '
-        'corollaries group_scales / hydrate_additive are stated for a top-level group and for the last hydrate part',
+        'corollaries are group_scales (top-level group), hydrate_additive (last part) and hydrate_additive_all (all parts, under the hypothesis '
+        'that each part is well formed when written alone)',
         'non-ASCII names (str.capitalize/lower beyond ASCII): no theorem, no oracle claim (explicit skip); the period/group tables have '
         'groups_reference (theorem) and an independent textbook oracle',
     )
